@@ -125,6 +125,10 @@ func TestC16_Histories(t *testing.T) {
 		suiteChoices := []uint16{tlsx.GMECCSM4CBCSM3, tlsx.GMECCSM4GCMSM3}
 		if !gm {
 			suiteChoices = []uint16{0xc02f, 0xc014, 0xcca8}
+			if gen.OneIn(t, "rsakx", 3) {
+				// static-RSA key exchange suites: sessions of these resume like any other
+				suiteChoices = []uint16{0x009c, 0x002f, 0x0035}
+			}
 		}
 		cache := gmtls.NewLRUClientSessionCache(cacheCap)
 		model := &lruModel{cap: cacheCap, m: map[string]*sessModel{}}
@@ -227,7 +231,7 @@ func TestC16_Histories(t *testing.T) {
 				expectFail = true
 				resumeOrFail = verdict == "either"
 			}
-			if !gm && s.maxVers < 0x0303 && s.suites != nil && !contains(s.suites, 0xc014) {
+			if !gm && s.maxVers < 0x0303 && s.suites != nil && !contains(s.suites, 0xc014) && !contains(s.suites, 0x002f) && !contains(s.suites, 0x0035) {
 				expectFail = true // no configured suite is usable below TLS 1.2
 			}
 			payloadC, payloadS := []byte("from client "+id), []byte("from server "+id)
